@@ -10,6 +10,12 @@ _make_tree      the elimination order given by the caller is used unchanged; can
 _triangulated   every elimination step connects the neighbours of the eliminated node (fill-in) in the working graph and in
                 the recorded edge set, then removes the node
 separator_axes  keyed by the scheduled messages; value is built from set(i) & set(j)
+__init__        one interaction graph, one tree built for the elimination order the caller gave; tree and order are what
+                _make_tree returns
+_make_graph     nodes = the attributes of the domain; for every measured clique all pairs of its attributes are joined
+_make_tree      (continued) the candidate tree joins EVERY pair of the maximal cliques networkx finds in the triangulated graph;
+                the spanning tree and the order used are returned, the order recorded
+maximal_cliques the depth-first preorder of the junction tree (one traversal of self.tree)
 """
 from ..vc.sitehooks import SiteSpecHooks
 
@@ -46,7 +52,47 @@ TRIANGULATED = dict(
     ensures={},
 )
 
+# _make_graph: the interaction graph has the domain's attributes as nodes and, for every measured clique, an edge between every
+# pair of its attributes (so that every clique is complete in it - the premise of the triangulation argument)
+MAKE_GRAPH = dict(
+    params=dict(self='obj:JunctionTree'), pure={k: v for k, v in PURE.items() if k not in ('list', 'tuple')}, requires=[],
+    sites=[dict(func='.add_nodes_from', arg=0, name='nodes-are-the-attributes-of-the-domain', spec='same(__arg, self.domain.attrs)'),
+           dict(func='.add_edges_from', arg=0, name='every-pair-of-a-cliques-attributes-is-joined', spec='same(__arg, itertools.combinations(cl, 2))')],
+    loops={1: dict(invariant=[])},
+    ensures={'the-graph-built-is-returned': 'same(result, G)', 'attributes-added-once': 'ghost("n_site_nodes-are-the-attributes-of-the-domain") == 1'},
+    uses_locals=['G'],
+)
+# _make_tree, continued: the candidate tree connects EVERY pair of maximal cliques of the triangulated graph
+MAKE_TREE['sites'] += [
+    dict(func='nx.find_cliques', arg=0, name='maximal-cliques-of-the-triangulated-graph', spec='same(__arg, tri)'),
+    dict(func='.add_nodes_from', arg=0, name='tree-nodes-are-those-cliques', spec='same(__arg, cliques)'),
+    dict(func='itertools.combinations', arg=0, name='candidate-edges-over-all-pairs-of-cliques', spec='same(__arg, cliques)'),
+    dict(func='itertools.combinations', arg=1, name='candidate-edges-are-pairs', spec='__arg == 2'),
+    dict(func='.add_edge', arg=0, name='candidate-edge-joins-the-pair-(first)', spec='same(__arg, c1)'),
+    dict(func='.add_edge', arg=1, name='candidate-edge-joins-the-pair-(second)', spec='same(__arg, c2)'),
+]
+MAKE_TREE['ensures'] = {'spanning-tree-and-the-order-used-are-returned': 'same(result[0], spanning) and same(result[1], order__old)',
+                        'order-recorded': 'same(self.elimination_order, order__old)',
+                        'all-pairs-enumerated-once': 'ghost("n_site_candidate-edges-over-all-pairs-of-cliques") == 1 and ghost("n_site_maximal-cliques-of-the-triangulated-graph") == 1'}
+MAKE_TREE['uses_locals'] = ['spanning', 'tri', 'cliques', 'complete', 'c1', 'c2']
+# __init__: one graph from the given cliques, one tree from the given elimination order
+INIT = dict(
+    params=dict(self='obj:JunctionTree', domain='obj:Domain', cliques='obj:list', elimination_order='obj:'), requires=[],
+    pure=dict(PURE, **{'._make_graph': 'obj', '._make_tree': 'obj'}),
+    sites=[dict(func='._make_tree', arg=0, name='tree-built-for-the-given-elimination-order', spec='same(__arg, elimination_order__old)')],
+    ensures={'domain-stored': 'same(self.domain, domain)', 'graph-is-the-interaction-graph': 'same(self.graph, self._make_graph())',
+             'tree-and-order-are-what-make-tree-returns': 'same(self.tree, self._make_tree(elimination_order)[0]) and same(self.order, self._make_tree(elimination_order)[1])'},
+)
+# maximal_cliques / neighbors: read off the tree (depth-first preorder: every clique after the first has an earlier neighbour,
+# which is what GraphicalModel.mle relies on - extern contract of networkx)
+MAXIMAL = dict(params=dict(self='obj:JunctionTree'), pure=dict(PURE, **{'nx.dfs_preorder_nodes': 'obj'}), requires=[],
+               sites=[dict(func='nx.dfs_preorder_nodes', arg=0, name='preorder-of-the-junction-tree', spec='same(__arg, self.tree)')],
+               ensures={'one-traversal': 'ghost("n_site_preorder-of-the-junction-tree") == 1'})
+
 FUNCTIONS = [
+    ('JunctionTree.__init__', INIT, {}, ''),
+    ('JunctionTree._make_graph', MAKE_GRAPH, {}, ''),
+    ('JunctionTree.maximal_cliques', MAXIMAL, {}, ''),
     ('JunctionTree.mp_order', MP_ORDER, {}, ''),
     ('JunctionTree._make_tree', MAKE_TREE, {}, 'order given explicitly'),
     ('JunctionTree._triangulated', TRIANGULATED, {}, ''),
